@@ -2,7 +2,7 @@
 # usage: tools/seed_eval.sh <patch.diff> <PROP> [<PROP>...]
 # Applies a seeded change to /repo, runs the quick checks named, prints one line per check,
 # and always restores /repo afterwards.
-patch="$1"; shift
+patch="$(realpath "$1")"; shift
 cd /repo || exit 2
 if ! git apply --check "$patch" 2>/dev/null; then echo "PATCH-DOES-NOT-APPLY $patch"; exit 2; fi
 git apply "$patch"
